@@ -29,6 +29,7 @@ package eval
 import (
 	"context"
 	"fmt"
+	"os"
 	"sort"
 	"strconv"
 	"strings"
@@ -686,6 +687,16 @@ func TestVerifC27(t *testing.T) {
 	t.Chdir(t.TempDir())
 	ops, replay := vh.ReplayOps()
 	if !replay {
+		// seed corpus first (boundary cases, one per realistic code change; see corpus/C27/seed.ops)
+		if p := os.Getenv("VERIF_C27_CORPUS"); p != "" {
+			if b, err := os.ReadFile(p); err == nil {
+				for _, l := range strings.Split(string(b), "\n") {
+					if l = strings.TrimSpace(l); l != "" && !strings.HasPrefix(l, "#") {
+						ops = append(ops, l)
+					}
+				}
+			}
+		}
 		rng := vh.NewRng(vh.Seed() + 27)
 		n := vh.Budget(4000, 150000)
 		for i := 0; i < n; i++ {
